@@ -48,7 +48,7 @@ pub fn main(tier: Option<&str>) {
         "universe of 64 addresses (8 peers, 8 chunk, 8 transaction, 4 register, 4 scratchpad addresses and each of these 32 again as a raw \
          record key): all 4096 ordered pairs for the distance value, symmetry, zero-iff-equal and typed==raw; all 1024 subsets of a 10-peer \
          list x 5 targets (two of them equal to a listed peer's address, typed and raw) for the sorters; every range bound in {d-1,d,d+1 : d pairwise distance} + {0,MAX} for the range filters; every \
-         requested count 0..=12 for closest-peer selection. Non-trivial = the two addresses differ.",
+         requested count 0..=12; the number of records a real record store counts within every range bound d-1/d+1 (after writes, updates, a removal) for closest-peer selection. Non-trivial = the two addresses differ.",
     );
     run.assume("256-bit space covered through this universe only; reference = SHA-256 (sha2 crate) of the address bytes, XOR, big-endian");
     let uni = universe();
@@ -212,6 +212,68 @@ pub fn main(tier: Option<&str>) {
                 }
             }
         }
+        drop(rig);
+        let _ = std::fs::remove_dir_all(&root);
+    }
+
+    // 5. records within a range, as a real record store counts them for its quotes: 6 records of two kinds at known
+    //    distances; every range bound d-1 / d+1 around every record distance (equality is not probed: the store's users
+    //    differ on < / <= there); after the initial writes, after an update of each held key, and after a removal
+    {
+        use crate::store_rig::{ranked_keys, RigCfg, StoreRig};
+        let me = rigs::fixtures::peer_id(1);
+        let root = crate::c01::fresh_scratch("c11-store");
+        let mut rig = StoreRig::new(&root, RigCfg { max_records: 64, cache_size: 4, max_value_bytes: None }, me);
+        rig.settle();
+        let keys = ranked_keys(me, 6, "c11-store");
+        let me_bytes = NetworkAddress::from_peer(me).as_bytes();
+        let dist = |k: &libp2p::kad::RecordKey| u(&xor_distance(&me_bytes, k.as_ref()));
+        let value = |i: usize, ver: u8| -> Vec<u8> { [&[0x91u8, if i % 2 == 0 { 1 } else { 3 }][..], format!("c11-store-{i}-{ver}").as_bytes()].concat() };
+        let mut held: Vec<usize> = vec![];
+        for (i, k) in keys.iter().enumerate() {
+            rig.put(k, &value(i, 0)).expect("put");
+            rig.settle();
+            held.push(i);
+        }
+        let mut bounds: Vec<U256> = vec![U256::from(1u8), U256::MAX];
+        for k in &keys {
+            bounds.push(dist(k).saturating_sub(U256::from(1u8)));
+            bounds.push(dist(k).saturating_add(U256::from(1u8)));
+        }
+        let mut phase = |rig: &mut StoreRig, held: &Vec<usize>, what: &str| {
+            for b in &bounds {
+                rig.store.verif_set_responsible_distance_range(*b);
+                let want = held.iter().filter(|i| dist(&keys[**i]) < *b).count();
+                let got = rig.store.verif_quoting_metrics(&keys[0], None).0.close_records_stored;
+                run.case(format!("store-range:{what}:{b}").as_bytes(), true);
+                if got != want {
+                    run.violation(
+                        "range-filter",
+                        "records-within-range",
+                        format!("{what}: the store counts {got} records within range bound {b}, the distance integer puts {want} of the {} held records below it", held.len()),
+                        json!({"op": "records-within-range", "phase": what, "bound": b.to_string()}),
+                    );
+                }
+            }
+        };
+        phase(&mut rig, &held, "after the initial writes");
+        // a new version of every held mutable record (odd indices are registers), range left where the last phase put it
+        for i in (1..keys.len()).step_by(2) {
+            rig.store.verif_set_responsible_distance_range(U256::MAX);
+            rig.put(&keys[i], &value(i, 1)).expect("update");
+            rig.settle();
+            let want = held.len();
+            let got = rig.store.verif_quoting_metrics(&keys[0], None).0.close_records_stored;
+            run.case(format!("store-range:update:{i}").as_bytes(), true);
+            if got != want {
+                run.violation("range-filter", "records-within-range", format!("after an update of held record {i} with the range unchanged the store counts {got} records within range MAX, {want} are held"), json!({"op": "records-within-range", "phase": "update", "record": i}));
+            }
+        }
+        phase(&mut rig, &held, "after updating the held mutable records");
+        rig.remove(&keys[2]);
+        rig.settle();
+        held.retain(|i| *i != 2);
+        phase(&mut rig, &held, "after a removal");
         drop(rig);
         let _ = std::fs::remove_dir_all(&root);
     }
